@@ -60,6 +60,10 @@ def scope_locals(fn):
     return bound - banned - params
 
 
+HALF = None      # 0/1: rename only functions whose crc32(qualname) has that parity (breaks sibling symmetry)
+ONLY = None      # set of qualified names ("Class.method" / "function") to restrict the renaming to
+
+
 def rewrite(path, suffix):
     src = path.read_text()
     tree = ast.parse(src)
@@ -75,7 +79,18 @@ def rewrite(path, suffix):
                 continue
             yield from top_functions(c, inside_fn)
 
+    quals = {}
+    for cls in [n for n in ast.walk(tree) if isinstance(n, ast.ClassDef)]:
+        for m in cls.body:
+            if isinstance(m, (ast.FunctionDef, ast.AsyncFunctionDef)):
+                quals[id(m)] = cls.name + "." + m.name
     for fn in top_functions(tree, False):
+        if ONLY is not None and quals.get(id(fn), fn.name) not in ONLY:
+            continue
+        if HALF is not None:
+            import zlib
+            if zlib.crc32(quals.get(id(fn), fn.name).encode()) % 2 != HALF:
+                continue
         names = scope_locals(fn)
         if not names:
             continue
@@ -99,6 +114,11 @@ def rewrite(path, suffix):
 def main():
     root = pathlib.Path(sys.argv[1])
     suffix = sys.argv[sys.argv.index("--suffix") + 1] if "--suffix" in sys.argv else "_q"
+    global ONLY, HALF
+    if "--half" in sys.argv:
+        HALF = int(sys.argv[sys.argv.index("--half") + 1])
+    if "--only" in sys.argv:
+        ONLY = set(sys.argv[sys.argv.index("--only") + 1].split(","))
     tf = te = 0
     for p in sorted(root.rglob("*.py")):
         if "demo" in p.parts:
